@@ -117,10 +117,10 @@ Accept(c, v, L) ==
     [] c.c = "of" -> IF v.t # "vec" THEN "wrong-type" ELSE IF ElemsOk(c.cs, v.c, 1, L) THEN "ok" ELSE "wrong-type"
     [] c.c = "haskey" -> IF v.t # "map" THEN "wrong-type"
                          ELSE LET g == MapGet(v, c.k) IN
-                              IF ~g.found THEN "failed-constraint" ELSE IF AnyAccepts(c.cs, g.v, L) THEN "ok" ELSE "wrong-type"
+                              IF ~g.found THEN "failed-constraint" ELSE IF Len(c.cs) = 0 \/ AnyAccepts(c.cs, g.v, L) THEN "ok" ELSE "wrong-type"   \* (the type is optional: a bare key constraint asks for presence only)
     [] c.c = "mayhavekey" -> IF v.t # "map" THEN "wrong-type"
                              ELSE LET g == MapGet(v, c.k) IN
-                                  IF ~g.found THEN "ok" ELSE IF AnyAccepts(c.cs, g.v, L) THEN "ok" ELSE "wrong-type"
+                                  IF ~g.found THEN "ok" ELSE IF Len(c.cs) = 0 \/ AnyAccepts(c.cs, g.v, L) THEN "ok" ELSE "wrong-type"
     [] c.c = "nok" -> LET ks == KeysOf(c.cs, v, L) IN
                       IF ks.r # "ok" THEN ks.r
                       ELSE IF v.t # "map" THEN "wrong-type"
